@@ -754,6 +754,7 @@ class Envelope:
         states:
             List of states in the same order as the tensoring of operators
         """
+        from photon_weave.state.composite_envelope import CompositeEnvelope
         from photon_weave.state.fock import Fock
         from photon_weave.state.polarization import Polarization
 
@@ -973,6 +974,7 @@ class Envelope:
             The given states will be returned in the given
             order (tensoring order), with the rest traced out
         """
+        from photon_weave.state.composite_envelope import CompositeEnvelope
         from photon_weave.state.fock import Fock
         from photon_weave.state.polarization import Polarization, PolarizationLabel
 
